@@ -29,6 +29,11 @@ def bootstrap():
         sys.path.insert(0, REPO)
     for k in ('OMP_NUM_THREADS', 'MKL_NUM_THREADS'):
         os.environ[k] = '1'
+    import faulthandler
+    try:
+        faulthandler.register(signal.SIGUSR1, all_threads=True, chain=False)     # kill -USR1 <pid> dumps all stacks
+    except Exception:       # noqa: BLE001
+        pass
     import warnings
     warnings.filterwarnings('ignore')
     import logging
@@ -144,11 +149,38 @@ def pmap(fn, tasks, nproc=None, timeout=None, chunksize=1):
         return
     ctx = multiprocessing.get_context('fork')
     with ctx.Pool(nproc, maxtasksperchild=None) as pool:
-        for st, r in pool.imap_unordered(_worker_entry, [(fn, t, timeout) for t in tasks], chunksize):
+        # the watchdog lives in the parent (work items use SIGALRM / ITIMER_REAL themselves for per-call deadlines)
+        if chunksize > 1:
+            chunks = [tasks[i:i + chunksize] for i in range(0, len(tasks), chunksize)]
+            it = pool.imap_unordered(_chunk_entry, [(fn, c) for c in chunks])
+        else:
+            it = pool.imap_unordered(_worker_entry, [(fn, t, None) for t in tasks])
+        while True:
+            try:
+                st, r = it.next(timeout or 3000)
+            except StopIteration:
+                break
+            except multiprocessing.TimeoutError:
+                pool.terminate()
+                raise HarnessError(f'no work item finished within {timeout or 3000} s: a work item hangs')
             if st == 'err':
                 pool.terminate()
                 raise HarnessError(r)
-            yield r
+            if st == 'chunk':
+                yield from r
+            else:
+                yield r
+
+
+def _chunk_entry(args):
+    fn, chunk = args
+    out = []
+    for t in chunk:
+        st, r = _worker_entry((fn, t, None))
+        if st == 'err':
+            return st, r
+        out.append(r)
+    return 'chunk', out
 
 
 class Stats(collections.Counter):
